@@ -251,17 +251,23 @@ class Impl:
     def store(self):
         return abstract_store(self.eng.dump())
 
+    def reset(self, src):
+        """Same engine object, database file replaced by a copy of `src` (keeps SQLAlchemy's statement cache warm)."""
+        self.eng.engine._data_store.dispose()
+        shutil.copy(src, self.eng.path)
+        self.last_dump = None
+        return self
+
     def run(self, req):
         """Process one abstract request. -> observation dict (everything the oracles and the comparator need)."""
         e = self.eng.engine
-        trace, raw_changed = [], []
+        trace = []
         real = e._process_operation
         d_before = self.eng.dump()
         last = [d_before]
 
         def traced(operation, payload):
-            before = self.eng.dump()
-            outside = before != last[0]          # the store moved between two items
+            before = last[0]                     # nothing runs between two items but the loop itself
             try:
                 return real(operation, payload)
             finally:
@@ -270,7 +276,6 @@ class Impl:
                 dirty = bool(s.dirty) or bool(s.new) or bool(s.deleted)
                 pl = e._id_placeholder
                 trace.append((before != after, dirty, int(pl) if pl is not None else None))
-                raw_changed.append(outside)
                 last[0] = after
         e._process_operation = traced
         try:
@@ -292,7 +297,7 @@ class Impl:
                     'uid': kdrv.first_uid(i)} for i in r['items']]
         return {'err': err, 'err_message': r['error'] and r['error']['message'], 'results': results, 'trace': trace,
                 'final': abstract_store(d_after), 'dump_before': d_before, 'dump_after': d_after,
-                'moved_outside_items': any(raw_changed) or (last[0] != d_after)}
+                'moved_outside_items': last[0] != d_after}
 
     def close(self):
         self.eng.close()
@@ -485,11 +490,7 @@ def oracle(ctx, history, req_, pre_dump, obs, twin_factory=None):
     if twin_factory is not None and fails and len(fails) < len(res):
         keep = [k for k, r in enumerate(res) if r['ok']]
         treq = dict(req_, items=[items[k] for k in keep])
-        twin = twin_factory()
-        try:
-            tobs = twin.run(treq)
-        finally:
-            twin.close()
+        tobs = twin_factory().run(treq)
         same_answers = (tobs['err'] is None and [(r['op'], r['bid'], r['ok'], r['uid']) for r in tobs['results']] ==
                         [(res[k]['op'], res[k]['bid'], True, res[k]['uid']) for k in keep])
         if not same_answers or tobs['dump_after'] != obs['dump_after']:
@@ -508,6 +509,7 @@ class Runner:
         self.work = ctx.work
         self.cases, self.meta = [], []
         self.snap = None
+        self.main = self.twin = None
 
     def snapshot(self):
         """Database file after SETUP (built once; every case starts from a copy)."""
@@ -516,52 +518,56 @@ class Runner:
             for r in SETUP:
                 o = im.run(r)
                 assert o['err'] is None and all(x['ok'] for x in o['results']), ('setup failed', r, o['results'])
+            self.setup_store = im.store()
             im.eng.engine._data_store.dispose()
             self.snap = self.work / 'setup.snapshot'
             shutil.copy(im.eng.path, self.snap)
-            self.setup_store = im.store()
             im.close()
         return self.snap
 
     def fresh(self, src=None):
-        p = self.work / ('case%d.db' % len(self.meta))
-        k = 0
-        while p.exists():
-            k += 1
-            p = self.work / ('case%d_%d.db' % (len(self.meta), k))
-        shutil.copy(src or self.snapshot(), p)
-        return Impl(self.work, path=str(p))
+        if self.main is None:
+            self.main = Impl(self.work)
+        return self.main.reset(src or self.snapshot())
+
+    def fresh_twin(self, src):
+        if self.twin is None:
+            self.twin = Impl(self.work)
+        return self.twin.reset(src)
+
+    def close(self):
+        for im in (self.main, self.twin):
+            if im is not None:
+                im.close()
+        self.main = self.twin = None
 
     def history(self, reqs, label, twin=True):
         """Run a list of requests on one engine that starts from the setup snapshot; one K case per request."""
         ctx = self.ctx
         im = self.fresh()
         hits = []
-        try:
-            done = []
-            for r in reqs:
-                r = dict(r, items=[i for i in r['items'] if expressible(i, r['ver'])])
-                pre = im.store()
-                pre_copy = None
-                if twin:
-                    pre_copy = self.work / ('twin%d.db' % len(self.meta))
-                    im.eng.engine._data_store.dispose()
-                    shutil.copy(im.eng.path, pre_copy)
-                obs = im.run(r)
-                if obs['err'] is not None and obs['err'].startswith('UNKNOWN'):
-                    raise RuntimeError('unclassified request-level error: %s' % obs['err'])
-                self.cases.append(coq_case(pre, r, im.now, obs))
-                self.meta.append({'label': label, 'history_after_setup': list(done), 'request': r,
-                                  'impl': {'err': obs['err'], 'results': [(x['op'], x['bid'], x['ok'], x['reason']) for x in obs['results']],
-                                           'trace': obs['trace'], 'final': obs['final']}})
-                tf = (lambda: Impl(self.work, path=str(pre_copy))) if twin else None
-                hits += oracle(ctx, list(done), r, None, obs, tf)
-                if pre_copy is not None and pre_copy.exists():
-                    pre_copy.unlink()
-                self.account(r, obs)
-                done.append(r)
-        finally:
-            im.close()
+        done = []
+        pre = self.setup_store
+        for r in reqs:
+            r = dict(r, items=[i for i in r['items'] if expressible(i, r['ver'])])
+            obs = im.run(r)
+            if obs['err'] is not None and obs['err'].startswith('UNKNOWN'):
+                raise RuntimeError('unclassified request-level error: %s' % obs['err'])
+            assert abstract_store(obs['dump_before']) == pre
+            self.cases.append(coq_case(pre, r, im.now, obs))
+            self.meta.append({'label': label, 'history_after_setup': list(done), 'request': r,
+                              'impl': {'err': obs['err'], 'results': [(x['op'], x['bid'], x['ok'], x['reason']) for x in obs['results']],
+                                       'trace': obs['trace'], 'final': obs['final']}})
+
+            def twin_at_same_point(prefix=list(done)):
+                t = self.fresh_twin(self.snapshot())
+                for q in prefix:
+                    t.run(q)
+                return t
+            hits += oracle(ctx, list(done), r, None, obs, twin_at_same_point if twin else None)
+            self.account(r, obs)
+            done.append(r)
+            pre = obs['final']
         return hits
 
     def account(self, r, obs):
@@ -689,12 +695,13 @@ def find_failing_input(run, ctx, bad):
             if tuple(r2['ver']) not in [(1, 0), (1, 1), (1, 2), (1, 3), (1, 4), (2, 0)]:
                 r2['ver'] = (1, 2)
             sub = Runner(ctx)
-            sub.snap, sub.meta = run.snapshot(), [None] * (100000 + len(run.meta))
-            sub.cases = []
+            sub.snap, sub.setup_store = run.snapshot(), run.setup_store
             try:
                 sub.history(m['history_after_setup'] + [r2], 'finder')
             except Exception as e:  # the finder must not hide the original disagreement
                 ctx.notes.append('finder probe raised %r' % (e,))
+            finally:
+                sub.close()
 
 
 def run(ctx):
@@ -723,6 +730,7 @@ def run(ctx):
         find_failing_input(runner, ctx, bad)
     for k in (0, len(runner.cases) // 2, len(runner.cases) - 1):
         ctx.sample({'request': runner.meta[k]['request'], 'implementation': runner.meta[k]['impl']})
+    runner.close()
 
 
 def replay(ctx, data):
@@ -732,7 +740,9 @@ def replay(ctx, data):
     rc = 0
     for c in cands:
         r = Runner(ctx)
+        r.snapshot()
         hits = r.history(c.get('history_after_setup', []) + [c['request']], 'replay')
+        r.close()
         print('replayed', canon(c['request'])[:300], '->', r.meta[-1]['impl'], 'oracle:', hits or 'no violation')
         if hits:
             rc = 1
